@@ -82,6 +82,7 @@ class Writers:
                 "handler_delay_ms": 400 if self.mode == "write-after-reset" else 0,
                 "handler_write_n": 3 if self.mode == "write-after-reset" else 1,
                 "onclose_write": "cc00000000" if self.mode == "in-onclose" else "",
+                "probe_on_close": "cd00000000" if self.mode == "in-onclose" else "",
                 "handler": [[6, 4, ""]] if (self.mode == "in-onclose" and self.g) else [],
                 "connect_retry_ms": 3000, "caps": [], "on_open": None,
                 "est_writes": ["aa00000000", "ab00000000"] if self.mode == "in-callbacks" else [],
@@ -151,8 +152,13 @@ class Writers:
                 bad.append("WriteUpdate from inside OnClose did not return (or OnClose was not delivered)")
             elif ow[0]["err"] == "":
                 bad.append("WriteUpdate on the writer of the ended session returned nil inside OnClose")
-            if any(m["t"] == 2 and m["b"] == "cc00000000" for m in c1["msgs"] or []):
+            if any(m["t"] == 2 and m["b"] in ("cc00000000", "cd00000000") for m in c1["msgs"] or []):
                 bad.append("an UPDATE written after the session had ended reached the wire")
+            pw = [w for w in (r["writes"] or []) if w["name"].startswith("onconnclose")]
+            if pw and pw[0]["name"] == "onconnclose-stuck":
+                bad.append("WriteUpdate at the moment corebgp closes the connection did not return")
+            elif pw and pw[0]["err"] == "":
+                bad.append("WriteUpdate returned nil at the moment corebgp was closing the session's connection (the session had ended)")
         if self.mode == "in-callbacks":
             bodies = [m["b"] for m in c1["msgs"] or [] if m["t"] == 2]
             for want in ("aa00000000", "ab00000000", "ac00000000", "ad00000000"):
